@@ -226,17 +226,23 @@ pub fn run_pool(nlive: u64, ndead: u64, seed_kind: u64, rounds: u64, short_grace
         let me = me_addr();
         let outsider: SocketAddr = ([127, 0, 0, 1], 20_002).into();
         let seeds: Vec<SocketAddr> = match seed_kind {
-            1 => vec![outsider],
+            1 | 4 => vec![outsider],
             2 => vec![peer_addr(1)],
             3 => vec![me, outsider],
             _ => vec![],
         };
+        // kind 4: a literal seed next to a seed given as a host name that does not resolve — the DNS
+        // refresh loop runs (every 60 s) and must keep the literal seed in the seed set
+        let mut seed_strs: Vec<String> = seeds.iter().map(|a| a.to_string()).collect();
+        if seed_kind == 4 {
+            seed_strs.insert(0, "chitchat-seed.invalid:20003".to_string());
+        }
         let config = ChitchatConfig {
             chitchat_id: ChitchatId::new("srv".to_string(), 0, me),
             cluster_id: "c".to_string(),
             gossip_interval: tick(interval_ticks),
             listen_addr: me,
-            seed_nodes: seeds.iter().map(|a| a.to_string()).collect(),
+            seed_nodes: seed_strs,
             failure_detector_config: if short_grace {
                 // dead peers become scheduled for deletion after 3 s and are removed after 6 s
                 FailureDetectorConfig { dead_node_grace_period: Duration::from_secs(6), ..FailureDetectorConfig::default() }
